@@ -10,8 +10,8 @@ import json, os, re, shutil, subprocess, sys
 
 P, caught, demo = sys.argv[1], sys.argv[2], sys.argv[3]
 summary = ' '.join(sys.argv[5:]) if len(sys.argv) > 5 else ''
-W = f'/tmp/seed-{P}'
-D = f'/verif/seeded/{P}'
+W = os.environ.get("SEED_WT") or f"/tmp/seed-{P}"
+D = os.environ.get("SEED_DEST") or f"/verif/seeded/{P}"
 os.makedirs(D, exist_ok=True)
 
 
